@@ -41,9 +41,10 @@ var c03Families = []*family{
 	{name: "local", ctors: []string{"NewFilePath", "NewFilePathName"}, local: "a.b/c", paths: []string{"a.b/c", "a.b/c/", "x/a.b/c", "a.b/C", "d/c", "fmt"},
 		names:   map[string]string{"a.b/c/": "c", "d/c": "c", "x/a.b/c": "c", "a.b/C": "c"},
 		aliases: []string{"c", "."}, prefixes: []string{"pkg"}, maxRefs: 3, freeRefs: 2, wrappers: []int{0, imp.WrapperIndex("dictkey")}, anon: false, last: true},
-	{name: "cgo", ctors: []string{"NewFile"}, paths: []string{"C", "b/C", "a/c", "fmt"},
+	{name: "cgo", ctors: []string{"NewFile"}, paths: []string{"C", "b/C", "a/c", "fmt", "9fans.net/go"},
 		names:   map[string]string{"b/C": "C", "a/c": "c"},
-		aliases: []string{"C", "c"}, prefixes: []string{"pkg"}, maxRefs: 3, freeRefs: 3, wrappers: []int{0}, anon: true, extra: true},
+		aliases: []string{"C", "c"}, prefixes: []string{"pkg"}, maxRefs: 3, freeRefs: 3, wrappers: []int{0}, anon: true, extra: true,
+		preambleOpts: [][]string{nil, {"#include <a.h>"}}},
 	{name: "mixed", ctors: []string{"NewFile"}, paths: []string{"a/f", "b/f", "math/rand", "crypto/rand", "x/go", "C", "fmt", "x/fmt"},
 		names:   map[string]string{"a/f": "f", "b/f": "f", "x/fmt": "fmt"},
 		aliases: []string{"f", "fmt", "rand"}, prefixes: []string{"pkg"}, maxRefs: 4, freeRefs: 2, wrappers: []int{0}, anon: true},
@@ -95,7 +96,7 @@ func runC03(r *ev.Recorder) {
 		"(unguessable unless std or stated through ImportName) exporting exactly the symbols referenced through that path - zero type errors, one qualifier per path. "+
 		"(2) canonical pre-render histories (final hint per path, anonymous set, prefix, ordered reference sequence; see checks/impcommon.go) enumerated by the choice-point explorer for %d path families: "+
 		"every reference sequence up to the family's length, with every combination of <= %d non-default settings (hint kinds incl. double hints, Anon, prefix, wrapper position, hints after references, an unused hinted path). "+
-		"distinct_nontrivial = distinct rendered outputs with at least two import specs", depth, len(c03Families), dev)
+		"(3) a package named v<N> (N = 1..13) before or after 1..N+2 packages competing for the base name v, prefix on/off. distinct_nontrivial = distinct rendered outputs with at least two import specs", depth, len(c03Families), dev)
 	r.Assume = []string{"ImportName is only ever given the package's true name (its documented contract)",
 		"go/types with a fabricated importer decides resolution; symbols are upper-case R<n>, outside the reach of any import name",
 		"histories longer than the bounds, and more than the stated number of non-default settings per scenario, are outside the bound"}
@@ -170,12 +171,51 @@ func runC03(r *ev.Recorder) {
 		}
 	}
 	r.Note("families", perFam)
+
+	// (3) a package whose own name is base+N, referenced first (or last), and k further packages
+	// competing for the base name: the numbering must step over the taken name
+	for n := 1; n <= 13; n++ {
+		for k := 1; k <= n+2 && k <= 14; k++ {
+			for variant := 0; variant < 4; variant++ {
+				names := map[string]string{}
+				own := fmt.Sprintf("legacy/v%d", n)
+				w := imp.New("NewFile", "", imp.DefaultTrueName(names))
+				if variant&2 != 0 {
+					w.Prefix("pkg")
+				}
+				if variant&1 == 0 {
+					w.Ref(own, 0)
+				}
+				for i := 0; i < k; i++ {
+					w.Ref(fmt.Sprintf("g%d/v", i), 0)
+				}
+				if variant&1 != 0 {
+					w.Ref(own, 0)
+				}
+				r.Eval(1)
+				a, msg := renderAnalyze(w)
+				var probs []string
+				if a == nil {
+					probs = []string{msg}
+				} else {
+					probs = imp.CheckResolve(a, w)
+					r.Distinct(a.Src)
+				}
+				if len(probs) > 0 {
+					r.Violate(ev.Violation{Signature: "c03:numbered:" + problemKind(probs[0]), What: fmt.Sprintf("%v: %s", w.Log, probs[0]), Case: ev.JSON(impCase{Ops: w.Log}), Detail: strings.Join(probs, "\n")})
+				}
+			}
+		}
+	}
 }
 
 func replayImp(fams []*family, sys *rawSystem, judge func(w *imp.World) []string, raw json.RawMessage) (bool, string) {
 	var c impCase
 	if err := json.Unmarshal(raw, &c); err != nil {
 		return true, "bad case"
+	}
+	if c.Family == "" && len(c.BFS) == 0 {
+		return true, "this case is replayed by running the check (operations: " + strings.Join(c.Ops, " ") + ")"
 	}
 	var w *imp.World
 	if c.Family != "" {
